@@ -2425,4 +2425,16 @@ M("s15-parties-by-division", "C05", "fire S15 S1", "src/compile.rs",
   """            let total = param.ty.size_in_bits_for_defs(self, &const_sizes);
             for _ in 0..*size {
                 let type_size = total / *size;""", "seed C05-i (shape): the bits of one party computed as total / number of elements")
+REVERT("revert-importer-bounds-and-assigned", "C11", "fire B5 B6", "20237f8", "pre-fix tree: tables sized by unchecked header numbers; no table of assigned wires")
+M("b5-file-length-guard-dropped", "C11", "fire B5", "src/convert.rs",
+  """            if wires_num - input_wires > lines.len() {
+                return Err(FromBristolError::MalformedLine(line_str));
+            }
+""", "", "the declared wire count is no longer compared with the length of the file")
+M("b6-outputs-not-checked", "C11", "fire B6", "src/convert.rs",
+  """        let mut output_wires = is_assigned.iter().enumerate().skip(first_output_wire);
+        if let Some((wire, _)) = output_wires.find(|(_, is_assigned)| !**is_assigned) {
+            return Err(FromBristolError::InvalidWireIndex(wire));
+        }
+""", "", "declared outputs that no gate assigns are accepted")
 
